@@ -25,7 +25,7 @@ RULE = ('bpch files of 1-3 time steps, 1-4 (category, tracer) blocks per step fr
         'reference encoder = Lean encoder, Lean decoder recovers the spec; (2) bpch1(noscale) presents the raw '
         'values, ncf2bpch of it reproduces the bytes; (3) bpch1 with scaling = float32(raw) * scale with the unit '
         'and name the Lean `resolve` selects; (4) the block-walking reader bpch2 presents the same data as bpch1; '
-        'non-trivial = at least 2 steps and 2 blocks with different layer counts; (5) the scaled file written by ncf2bpch into an empty directory and read again: names, units, values')
+        'non-trivial = at least 2 steps and 2 blocks with different layer counts; (5) the scaled file written by ncf2bpch into an empty directory and read again: names, units, values; (6) the front end bpch() with the block-walking reader named and exactly one of noscale / nogroup set; (7) bpch1 with a stepped / reversed / end-relative timeslice: tau0 and values of exactly the selected time blocks')
 ASSUMPTIONS = ['float32 multiplication by the scale factor is numpy, checked numerically (not modelled)',
                'numpy memmap / structured dtypes are trusted for the stride arithmetic, which is exercised on every case']
 MIN_NONTRIVIAL = {'quick': 15, 'thorough': 200}
@@ -38,6 +38,7 @@ def gen(rng, tier):
     for i in range(n):
         c = B.gen(rng)
         c['drop_line'] = rng.random() < 0.2         # the first block's tracer has no tracerinfo line
+        c['tslice'] = rng.choice([[None, None, 2], [1, None, None], [None, None, -1], [-1, None, None], [None, -1, None], [1, None, 2]])
         out.append(c)
     c = B.gen(rng)
     c['nt'] = 2
@@ -118,6 +119,24 @@ def impl(case):
                     res['bpch2'] = view(h, case)
                 except Exception as e:
                     res['bpch2'] = dict(err='%s %s' % (type(e).__name__, str(e)[:80]))
+                # the front end with the block-walking reader named and exactly one of the two options set
+                from PseudoNetCDF.geoschemfiles._bpchmaster import bpch as front
+                for tag, kw in (('front_noscale', dict(reader='bpch2', noscale=True)), ('front_nogroup', dict(reader='bpch2', nogroup=True))):
+                    try:
+                        res[tag] = view(front(p, **kw), case)
+                    except lib.HarnessError:
+                        raise
+                    except Exception as e:
+                        res[tag] = dict(err='%s %s' % (type(e).__name__, str(e)[:80]))
+                # a window of the time blocks (stepped, from the end, reversed)
+                sl = case.get('tslice')
+                if sl:
+                    try:
+                        res['sliced'] = view(bpch1(p, noscale=True, timeslice=slice(*sl)), case)
+                    except lib.HarnessError:
+                        raise
+                    except Exception as e:
+                        res['sliced'] = dict(err='%s %s' % (type(e).__name__, str(e)[:80]))
             except lib.HarnessError:
                 raise
             except Exception as e:
@@ -241,6 +260,45 @@ def oracle(case, res):
                 return 'scaled file written into an empty directory and read again: values of %s differ' % a['key']
         if len(rs['vars']) != len(res['scaled']['vars']):
             return 'scaled file written into an empty directory and read again: %d tracers, %d before' % (len(rs['vars']), len(res['scaled']['vars']))
+    # the front end with the block-walking reader named and one option set: unscaled values under the grouped names /
+    # scaled values under the short names
+    fn = res.get('front_noscale')
+    if fn is not None:
+        if 'err' in fn:
+            if 'err' not in res['bpch2']:
+                return "bpch(reader='bpch2', noscale=True) raised: " + fn['err']
+        else:
+            got = [(v['key'], v['shape'], v['bits']) for v in fn['vars']]
+            want = [(v['key'], v['shape'], v['bits']) for v in res['raw']['vars']]
+            if got != want:
+                return "bpch(reader='bpch2', noscale=True) does not present the unscaled values under the grouped names: %s, expected %s" % (
+                    [g[0] for g in got], [w[0] for w in want])
+    fg = res.get('front_nogroup')
+    short = [v['key'].split('_', 1)[1] for v in res['scaled']['vars']]
+    if fg is not None and len(set(short)) == len(short):
+        if 'err' in fg:
+            if 'err' not in res['bpch2']:
+                return "bpch(reader='bpch2', nogroup=True) raised: " + fg['err']
+        else:
+            got = [(v['key'], v['shape'], v['bits']) for v in fg['vars']]
+            want = [(k, v['shape'], v['bits']) for k, v in zip(short, res['scaled']['vars'])]
+            if got != want:
+                return "bpch(reader='bpch2', nogroup=True) does not present the scaled values under the short names: %s, expected %s" % (
+                    [g[0] for g in got], [w[0] for w in want])
+    sl = res.get('sliced')
+    if sl is not None:
+        idx = list(range(case['nt']))[slice(*case['tslice'])]
+        if idx:
+            if 'err' in sl:
+                return 'timeslice=slice%s of %d time blocks raised: %s' % (tuple(case['tslice']), case['nt'], sl['err'])
+            if sl['tau0'] != [res['raw']['tau0'][i] for i in idx]:
+                return 'timeslice=slice%s of %d time blocks: tau0 %s, the selected blocks have %s' % (
+                    tuple(case['tslice']), case['nt'], sl['tau0'], [res['raw']['tau0'][i] for i in idx])
+            for a, b2 in zip(res['raw']['vars'], sl['vars']):
+                per = len(a['bits']) // case['nt']
+                want = [w for i in idx for w in a['bits'][i * per:(i + 1) * per]]
+                if b2['key'] != a['key'] or b2['bits'] != want:
+                    return 'timeslice=slice%s: values of %s are not those of time blocks %s' % (tuple(case['tslice']), a['key'], idx)
     want0 = [B.taus(case, t)[0] for t in range(case['nt'])]
     if res['raw']['tau0'] != want0 or res['raw']['tau1'] != [x + case['dtau'] for x in want0]:
         return 'tau0/tau1 %s %s, written %s' % (res['raw']['tau0'], res['raw']['tau1'], want0)
